@@ -110,7 +110,9 @@ def choose_op(rng, pose, allow_tf):
         if len(comps) > 1: c += ["remove_components"]
         if sum(len(p) for _, p in comps) > 1: c += ["remove_points"]
     else:
-        c += ["augment2d", "get_components", "get_components"]
+        c += ["get_components", "get_components"]
+        if P >= 2 or F <= 1:                 # tf.matmul on (F > 1, 1, N, D) aborts the interpreter in this sandbox (DESIGN §9)
+            c += ["augment2d"]
         if len(comps) > 1: c += ["remove_components"]
         if sum(len(p) for _, p in comps) > 1: c += ["remove_points"]
         if N >= 2: c += ["normalize"]
